@@ -39,7 +39,7 @@ RTO_MAX   == 60000000
 DUP_THRESH == 3              \* C06 "three duplicate acknowledgements"
 Eps       == 1001            \* tokio's timer wheel rounds sleeps up to the next millisecond
 
-NoFin == [seq |-> -1, cnt |-> 0, acked |-> FALSE, abort |-> FALSE]
+NoFin == [seq |-> -1, cnt |-> 0, acked |-> FALSE, abort |-> FALSE, own |-> FALSE]
 
 (***************************************************************************)
 (* Endpoint record.  cfg: the per-connection configuration as logged by    *)
@@ -72,7 +72,7 @@ NewEndpoint(cfg, isn, rnxt0, pwnd0, now) ==
       strictDup|-> 0,          \* strictest reading (ST_STATE, same ack, same window, data outstanding)
       sackPkts |-> 0,          \* consecutive packets carrying a selective ACK
       sackHi   |-> 0,          \* packets selectively acknowledged above the hole by the last packet
-      lastRxWnd|-> -1,
+      lastRxWnd|-> -1, lastRxAck |-> -1, looseEv |-> 0, peerSack |-> FALSE,
       recPoint |-> -1,         \* highest seq sent when loss evidence appeared (recovery point), -1 none
       frDue    |-> 0,          \* line at which a fast retransmission became due (0: none)
       maxAcked |-> 0,          \* largest payload acknowledged (proven size, C14)
@@ -210,7 +210,11 @@ MaxLen(e, S) ==
 
 \* sackSet: offsets i such that sequence number ack + 2 + i is selectively acknowledged
 RecvAck(e, ack, wnd, hasSack, sackSet, isState, now, line) ==
-    LET gone   == CumAcked(e, ack)
+    LET gone0  == CumAcked(e, ack)
+        \* a probe the implementation has given up on is no longer in its queue: an acknowledgement that
+        \* covers it only proves that it had been delivered (known finding: its re-segmentation duplicates bytes)
+        poppedAcked == { s \in gone0 : e.segs[s].popped }
+        gone   == gone0 \ poppedAcked
         ackedB == SumLen(e, gone, LAMBDA g : TRUE)
         cntB   == SumLen(e, gone, LAMBDA g : g.counted)
         rest   == DOMAIN e.segs \ gone
@@ -224,11 +228,16 @@ RecvAck(e, ack, wnd, hasSack, sackSet, isState, now, line) ==
         nSack  == Cardinality(sackSet)
         atHole == D(Nx(ack, 1), e.una) = 0
         dup    == ~adv /\ Outstanding(e) /\ atHole /\ (isState \/ hasSack)
-        sdup   == dup /\ isState /\ ~hasSack /\ wnd = e.lastRxWnd
+        \* strictest reading of a duplicate: identical to the packet processed immediately before it
+        sdup   == dup /\ isState /\ ~hasSack /\ wnd = e.lastRxWnd /\ ack = e.lastRxAck
+        \* loosest reading of the evidence: every packet that repeats the acknowledgement or carries a
+        \* selective ACK counts, until a plain cumulative ACK advances
+        looseN == IF adv /\ ~hasSack THEN 0 ELSE IF dup \/ hasSack THEN e.looseEv + 1 ELSE e.looseEv
         dupN   == IF adv THEN 0 ELSE IF dup THEN e.dupAcks + 1 ELSE e.dupAcks
-        sdupN  == IF adv \/ ~isState \/ wnd # e.lastRxWnd THEN 0 ELSE IF sdup THEN e.strictDup + 1 ELSE e.strictDup
+        sdupN  == IF adv \/ ~isState \/ wnd # e.lastRxWnd \/ ack # e.lastRxAck THEN 0
+                  ELSE IF sdup THEN e.strictDup + 1 ELSE e.strictDup
         spN    == IF hasSack THEN e.sackPkts + 1 ELSE 0
-        evid   == dupN >= DUP_THRESH \/ nSack >= DUP_THRESH \/ spN >= DUP_THRESH
+        evid   == dupN >= DUP_THRESH \/ nSack >= DUP_THRESH \/ spN >= DUP_THRESH \/ looseN >= DUP_THRESH
         recDone == e.recPoint >= 0 /\ D(ack, e.recPoint) >= 0
         rec0   == IF recDone THEN -1 ELSE e.recPoint
         stillOut == \E s \in rest : ~segs2[s].sacked
@@ -237,14 +246,14 @@ RecvAck(e, ack, wnd, hasSack, sackSet, isState, now, line) ==
         \* strictest trigger of a fast retransmission (obligation): the third strict duplicate, or a
         \* packet whose selective ACK marks three packets above the hole, outside any recovery
         strictTrig == /\ rec0 < 0 /\ ~e.rtoMode /\ stillOut /\ e.frDue = 0
-                      /\ \/ sdupN = DUP_THRESH /\ sdup
+                      /\ \/ (sdupN = DUP_THRESH /\ sdup /\ ~e.peerSack)   \* a peer that never used selective ACKs
                          \/ (nSack >= DUP_THRESH /\ atHole /\ e.sackHi < DUP_THRESH)
     IN  [e EXCEPT !.segs = segs2,
                   !.una = IF gone = {} THEN @ ELSE IF D(Nx(ack, 1), @) > 0 THEN Nx(ack, 1) ELSE @,
                   !.acked = @ + ackedB,
                   !.flight = @ - cntB - sackB,
                   !.pwnd = wnd,
-                  !.lastRxWnd = wnd,
+                  !.lastRxWnd = wnd, !.lastRxAck = ack, !.looseEv = looseN, !.peerSack = @ \/ hasSack,
                   !.maxAcked = Max(@, Max(MaxLen(e, gone), MaxLen(e, newS))),
                   !.rtoMode = IF adv \/ finAck THEN FALSE ELSE @,
                   !.rtoLast = IF adv \/ finAck THEN 0 ELSE @,
@@ -254,6 +263,7 @@ RecvAck(e, ack, wnd, hasSack, sackSet, isState, now, line) ==
                   !.recPoint = rec1,
                   !.frDue = IF strictTrig THEN line ELSE IF ~stillOut THEN 0 ELSE @,
                   !.probeOut = IF @ >= 0 /\ (@ \in gone \/ @ \in newS) THEN -1 ELSE @,
+                  !.splitDelivered = @ \/ poppedAcked # {},
                   !.fin = IF finAck THEN [@ EXCEPT !.acked = TRUE] ELSE @]
 
 (***************************************************************************)
@@ -396,11 +406,13 @@ R_C17_FinSeq(e, s, abort) ==
 \* "is sent only after all accepted data has been transmitted" (when closing on its own initiative)
 R_C17_FinAfterData(e) == e.nextOff = e.wr
 \* "no new payload follows it"
-R_C17_NothingAfterFin(e, s) == e.fin.seq >= 0 => (Known(e, s) /\ D(s, e.fin.seq) < 0)
+\* (the clause is about an endpoint that closes on its own initiative; fin.own)
+R_C17_NothingAfterFin(e, s) == (e.fin.seq >= 0 /\ e.fin.own) => (Known(e, s) /\ D(s, e.fin.seq) < 0)
 \* "A peer's FIN is honoured only in sequence"
 R_C17_PeerFinInOrder(e, s) == s = Nx(e.rnxt, 1)
 TxFin(e, s, abort, now) ==
-    [e EXCEPT !.fin = [seq |-> s, cnt |-> (IF e.fin.seq = s THEN e.fin.cnt + 1 ELSE 1), acked |-> FALSE, abort |-> abort],
+    [e EXCEPT !.fin = [seq |-> s, cnt |-> (IF e.fin.seq = s THEN e.fin.cnt + 1 ELSE 1), acked |-> FALSE, abort |-> abort,
+                       own |-> IF e.fin.seq >= 0 THEN e.fin.own ELSE e.peerFin < 0],
               !.idleFin = 0, !.finAnsDue = 0,
               !.rtxBase = IF ~SentUnacked(e) /\ e.fin.seq < 0 THEN now ELSE @]
 
@@ -419,14 +431,16 @@ AppWrite(e, n, line) ==
 
 \* C19 "The bytes a stream has accepted from write but not yet had acknowledged never exceed
 \*      the configured transmit buffer limit (the larger of its initial and maximum size)"
-R_C19_TxBounded(e) == e.wr - e.acked <= Max(e.cfg.tx_init, e.cfg.tx_max)
+\* (selectively acknowledged bytes are acknowledged)
+SackedBytes(e) == SumLen(e, DOMAIN e.segs, LAMBDA g : g.sacked)
+R_C19_TxBounded(e) == e.wr - e.acked - SackedBytes(e) <= Max(e.cfg.tx_init, e.cfg.tx_max)
 \* C19 "it is woken as soon as acknowledgements free space" / C02 "blocked readers/writers are always
 \*      woken when their condition changes": a write may not stay pending across a clock advance
 \*      while the buffer has room
 R_C19_WriteNotStuck(e) == ("write" \in e.pend /\ ~e.ended) => e.wr - e.acked >= e.ringCap
 
 \* C03 "A successful flush or shutdown implies every byte written before it has been acknowledged by the peer's stack"
-R_C03_FlushHonest(e, pos) == e.acked >= pos
+R_C03_FlushHonest(e, pos) == e.acked + SackedBytes(e) >= pos
 \* C03 "a reader sees end-of-stream only after every byte that preceded the peer's FIN"
 R_C03_EofOnlyAfterFin(e) == e.peerFin >= 0 /\ e.rd = e.consumed
 \* C03 "will reach a peer application that keeps reading even if the network then dies" / "never a clean
